@@ -4,7 +4,7 @@
    with the implementation on every run (events per packet; packages obtained through the real reader goroutine). *)
 From Coq Require Import ZArith List Bool.
 Import ListNotations.
-From V Require Import Base.Tree Base.Bytes Base.Parser Rx.Model Rx.Generic Rx.Proofs Rx.Semantics Rx.Transport Rx.TransportProofs.
+From V Require Import Base.Tree Base.Bytes Base.Parser Rx.Model Rx.Generic Rx.Proofs Rx.Semantics Rx.Transport Rx.TransportProofs Rx.PrefixProofs Gen.GenPkg.
 Open Scope Z_scope.
 
 (* Packet level.  For EVERY message (any bytes for which the one-packet run raises no parse error), every state of
@@ -34,6 +34,18 @@ Theorem C02_transport_partitions_agree : forall segs1 segs2, nonempty_segs segs1
   concat segs1 = concat segs2 -> read_script segs1 = read_script segs2.
 Proof. exact transport_partitions_agree. Qed.
 
+(* Empty packets.  A header-only packet at ANY place of ANY packet sequence (between responses or inside one, e.g.
+   directly before a row) is reported by its own marker and leaves the events of all other packets and the state of
+   the channel exactly as they are without it. *)
+Theorem C02_header_only_packet_transparent : forall need nenv ps1 p ps2 st, p_len p = c_hdr_size ->
+  rx_run need nenv st (ps1 ++ p :: ps2) =
+  let '(e1, s1) := rx_run need nenv st ps1 in let '(e2, s2) := rx_run need nenv s1 ps2 in
+  (e1 ++ [EvHeaderOnly (p_hdr p)] :: e2, s2).
+Proof. exact rx_run_header_only. Qed.
+Theorem C02_header_only_packet_state : forall need nenv ps1 p ps2 st, p_len p = c_hdr_size ->
+  snd (rx_run need nenv st (ps1 ++ p :: ps2)) = snd (rx_run need nenv st (ps1 ++ ps2)).
+Proof. exact rx_run_header_only_state. Qed.
+
 (* non-vacuity: a two-packet DONE(COUNT|MORE) + DONE(0) message cut inside the first package *)
 Example C02_example :
   flat_run 1 1 rx_init (mk_packets [[253; 17; 0]; [0; 0; 1; 0; 0; 0; 253; 0; 0; 0; 0; 0; 0; 0; 0]])
@@ -43,3 +55,5 @@ Proof. vm_compute. reflexivity. Qed.
 Print Assumptions C02_fragmentation_independent.
 Print Assumptions C02_nothing_invented.
 Print Assumptions C02_transport_independent.
+Print Assumptions C02_header_only_packet_transparent.
+Print Assumptions C02_header_only_packet_state.
